@@ -23,7 +23,7 @@ type c10Model struct {
 func c10List(g *GcsEmu, bucket string) []*storage.Object {
 	w := vNewRecorder()
 	g.handleGcsListBucket(vCtx(), dontNeedUrls, w, url.Values{}, bucket)
-	for _, b := range w.bodies {
+	for _, b := range w.all() {
 		if l, ok := b.(*storage.Objects); ok {
 			return l.Items
 		}
@@ -177,7 +177,7 @@ func H_C10_history() {
 				break
 			}
 			var res *storage.Object
-			for _, b := range w.bodies {
+			for _, b := range w.all() {
 				if rr, ok := b.(*storage.RewriteResponse); ok {
 					res = rr.Resource
 				}
@@ -228,7 +228,7 @@ func H_C10_race() {
 		}
 		wcode = w.code
 		wrote = w.object()
-		for _, b := range w.bodies {
+		for _, b := range w.all() {
 			if o, ok := b.(*storage.RewriteResponse); ok {
 				wrote = o.Resource
 			}
